@@ -134,10 +134,14 @@ def _disp_op(name, s):
     return {"Ball": Ball, "Box": Box, "Sphere": Sphere}[name](s)
 
 
-def sc_disp(V, op="Ball"):
+def sc_disp(V, op="Ball", reassign=False):
     """Geometry bound + symmetry of Ball / Sphere / Box."""
     s = V.real("step", lo=0, lo_strict=True, hi=50)
-    o = _disp_op(op, s)
+    if reassign:
+        o = _disp_op(op, 0.3)
+        o.step_size = s  # the step size is a public attribute
+    else:
+        o = _disp_op(op, s)
     if V.mode == "sym":
         E().pi()
         rng = RecRNG()
@@ -424,7 +428,7 @@ def _def_op(name, mx, mask=None):
     return cls(mx) if mask is None else cls(mx, mask)
 
 
-def sc_deformation(V, op="Isotropic", masked=False):
+def sc_deformation(V, op="Isotropic", masked=False, reassign=False):
     mx = V.real("maxv", lo=0, lo_strict=True, hi=5)
     if V.mode == "sym":
         if masked:
@@ -434,7 +438,13 @@ def sc_deformation(V, op="Isotropic", masked=False):
                     mask[i, j] = V.bool(f"mask{i}{j}")
         else:
             mask = None
-        o = _def_op(op, mx, mask)
+        if reassign:
+            o = _def_op(op, 0.01)
+            o.max_value = mx
+            if mask is not None:
+                o.mask = mask
+        else:
+            o = _def_op(op, mx, mask)
         rng = RecRNG()
         F = np.asarray(o.calculate(Ctx(None, rng)), dtype=object)
         V.prove(F.shape == (3, 3), "shape", info=op)
@@ -513,6 +523,9 @@ def _plan(tier):
     for op in ("Isotropic", "Anisotropic", "Shape"):
         for masked in (False, True):
             plan.append(("deformation", dict(op=op, masked=masked), ("done",)))
+    plan.append(("disp", dict(op="Ball", reassign=True), ("done",)))
+    plan.append(("deformation", dict(op="Anisotropic", masked=True, reassign=True), ("done",)))
+    plan.append(("deformation", dict(op="Isotropic", masked=False, reassign=True), ("done",)))
     plan.append(("disp", dict(op="Ball"), (), "geometry"))
     plan.append(("deformation", dict(op="Shape", masked=False), (), "volume-preserving"))
     return plan
